@@ -198,11 +198,13 @@ def run(chk, repo, tier):
         factor_rule(chk, repo, 'C13.R2', fi, mode, stmts, 3, ret_index=1, what='returned scale')
     chk.floor('C13.R3', n3, 30)
     from_vector_rules(chk, repo, 'C13.R5')
+    from . import truncrule
+    truncrule.rule(chk, repo, 'C13.R7')
     from . import support
     support.block_rules(chk, repo, 'C13.R6', ('svd',))
     chk.assume('factorisation contract U.diag(s).V == M of bond_ops.split_matrix_svd at tol = 0 (on the retained subspace '
                'otherwise); C12 decides its structural part')
-    chk.undecided += ['every inequality of the statement (error bounds, scale interval, Schmidt values kept)']
+    chk.undecided += ['the inequalities of the statement as numerical statements (error bounds, scale interval)']
     return ('Direction pairing and provenance rules for MPS.compress, factor x scale algebra for the returned pair, affine '
             'sweep wiring, leg-domain gauge invariance of the SVD steps (singular values enter with total exponent 1), '
             'bond-leg restriction and layout rules for the TT-SVD constructor.',
